@@ -121,6 +121,7 @@ func (rn *runner) stepTr(ctx *core.Ctx, op []string) string {
 	e := rn.tr
 	if op[0] == "tr.reg" && len(op) == 3 {
 		// set-up: the peer named op[1] is a registered cheque peer with chain address of key op[2]
+		ctx.Annotate(hx(overlayOf(op[1]).Bytes()), hx(ethAddrOf(op[2]).Bytes()))
 		if err := e.book.PutBeneficiary(overlayOf(op[1]), ethAddrOf(op[2])); err != nil {
 			return "err"
 		}
@@ -137,6 +138,7 @@ func (rn *runner) stepTr(ctx *core.Ctx, op []string) string {
 	chain, known := e.book.Beneficiary(peer.Address)
 	fr := newFrameReader(stream)
 	specs := e.proto.Protocol().StreamSpecs
+	ctx.Annotate(hx(peer.Address.Bytes()), hx(e.self.Bytes()))
 	var o outcome
 	switch op[0] {
 	case "tr.cheque":
